@@ -155,6 +155,44 @@ def run(ck):
         "graph of the four concrete classes. Who may switch to TX / open the TX pipe / close pipes is a whitelist (R07.3).")
     ck.not_decided = ["exits by exception (the statement speaks of returns; C15 bounds which exceptions can occur)", "the CE level right after `with` entry"]
     agg = Agg(ck)
+    _run(ck, agg)
+
+
+def write_typestate(ck, agg):
+    """R07.0 + R07.1 for _write() alone (every return of every transmission leaves the node listening) - for the checks of properties
+    that rest on it (C17: a node that stays in TX mode after a failed transmission answers nothing any more)"""
+    _run(ck, agg, only_write=True)
+
+
+def addr_writers(ck, agg):
+    """R07.4 "own addresses": the node's logical address changes only inside _begin(), which re-opens the six pipes on it - a function that
+    stores a new address by itself (a failure path 'resetting' to the default address) leaves the radio listening on the old one"""
+    P = ck.prog
+    mix = P.cls("network.mixins", "NetworkMixin")
+    af = net.FN("_addr")
+    f_begin2 = P.method(mix, "_begin")
+    nwr = 0
+    for fi in P.all_funcs():
+        for x in iter_own_nodes(fi.node):
+            tgs = []
+            if isinstance(x, ast.Assign):
+                tgs = list(x.targets)
+            elif isinstance(x, (ast.AugAssign, ast.AnnAssign)):
+                tgs = [x.target]
+            flat = []
+            for t in tgs:
+                flat.extend(t.elts if isinstance(t, (ast.Tuple, ast.List)) else [t])
+            for t in flat:
+                if isinstance(t, ast.Attribute) and t.attr == af and isinstance(t.value, ast.Name) and t.value.id == "self" and fi.cls is not None and mix in fi.cls.mro:
+                    nwr += 1
+                    from .common import allowed_via_callers
+                    okw, why = allowed_via_callers(P, fi, {f_begin2.name, "__init__"})        # _begin() itself, or a private helper only it calls
+                    agg.add("R07.4", fi, "the node's logical address is stored only by _begin() (and the constructor)", okw,
+                            "%s assigns self.%s without re-opening the pipes%s: the node then listens on the addresses of its previous logical address" % (fi.qualname, af, why), x)
+    agg.add("R07.4", f_begin2, "_begin() stores the logical address (anchor)", nwr >= 1, "no assignment to self.%s found" % af)
+
+
+def _run(ck, agg, only_write=False):
     nn = net.NetNode(ck, "rf24_network", "RF24Network")
     P = ck.prog
     mix = P.cls("network.mixins", "NetworkMixin")
@@ -247,7 +285,7 @@ def run(ck):
     nn.model.opaque[f_upd.qualname] = sum_upd
     # every caller enters _write() in the listening state (checked at each nested call site below), so that is the pre-state
     for pre in ("listening",):
-        for queue in ("FrameQueueFrag", "FrameQueue"):
+        for queue in (("FrameQueueFrag",) if only_write else ("FrameQueueFrag", "FrameQueue")):
             for send_type in (0, 1, 2, 3, 4):
                 for mlen in (0, 30):
                     nscen += 1
@@ -259,6 +297,8 @@ def run(ck):
                     check_outs(nn, agg, f_write, outs, "_write(send_type=%d, %d-byte message) from %s state, %s" % (send_type, mlen, pre, queue))
                     agg.add("R07.1", f_write, "_write() has complete paths", any(o.kind == "return" for o in outs), "no complete path for send_type=%d" % send_type)
     nn.model.opaque.pop(f_upd.qualname, None)
+    if only_write:
+        return
     # ---- _net_update with _write as summary ---------------------------------------------------------------
     nn.model.opaque[f_write.qualname] = sum_write
     for clsmod, clsname in net.NODE_CLASSES:
@@ -423,33 +463,17 @@ def run(ck):
     c14.level_domain(ck, agg, nn14)
     # ... and that address is the same for every node of the level, whatever its digits (R14.4)
     c14.pipe_address(ck, agg, nn14)
-    # R07.4 "own addresses": the node's logical address changes only inside _begin(), which re-opens the six pipes on it - a function that
-    # stores a new address by itself (a failure path 'resetting' to the default address) leaves the radio listening on the old one
-    af = net.FN("_addr")
-    f_begin2 = P.method(mix, "_begin")
-    nwr = 0
-    for fi in P.all_funcs():
-        for x in iter_own_nodes(fi.node):
-            tgs = []
-            if isinstance(x, ast.Assign):
-                tgs = list(x.targets)
-            elif isinstance(x, (ast.AugAssign, ast.AnnAssign)):
-                tgs = [x.target]
-            flat = []
-            for t in tgs:
-                flat.extend(t.elts if isinstance(t, (ast.Tuple, ast.List)) else [t])
-            for t in flat:
-                if isinstance(t, ast.Attribute) and t.attr == af and isinstance(t.value, ast.Name) and t.value.id == "self" and fi.cls is not None and mix in fi.cls.mro:
-                    nwr += 1
-                    from .common import allowed_via_callers
-                    okw, why = allowed_via_callers(P, fi, {f_begin2.name, "__init__"})        # _begin() itself, or a private helper only it calls
-                    agg.add("R07.4", fi, "the node's logical address is stored only by _begin() (and the constructor)", okw,
-                            "%s assigns self.%s without re-opening the pipes%s: the node then listens on the addresses of its previous logical address" % (fi.qualname, af, why), x)
-    agg.add("R07.4", f_begin2, "_begin() stores the logical address (anchor)", nwr >= 1, "no assignment to self.%s found" % af)
+    addr_writers(ck, agg)
     # the summaries above rest on the radio layer's pipe-0 discipline (open_rx_pipe(0, a) always remembers a, listen = True re-opens pipe 0
     # on it whatever the registers held before): R08.x, shared with C08
     from . import c08
     c08.run_for(ck, Radio(ck), agg)
+    # "auto-ack disabled on pipe 0": the value the network layer hands to the auto_ack setter is the value that reaches EN_AA (R03.5, shared
+    # with C03); "after any call": node_address = x reaches _begin() only for addresses _pipe_address() can translate (R15.3, shared with C15)
+    from . import c03, c15
+    from ..tables import contract as _ct
+    c03.run_setters(Radio(ck), agg, _ct.SETTERS)
+    c15.validator(ck, agg)
     agg.flush()
     ck.floor("R07", "_write/_net_update/_begin scenarios", nscen, 40)
     ck.floor("R07.1", "public entry points reaching the radio", nentry, 20)
